@@ -73,4 +73,39 @@ def sFile (l : SLayer) (baseCount : Nat) : File :=
     fan := (List.range 256).map (fun b => (l.ids.filter (fun id => decide ((id.headD 0).toNat ≤ b))).length)
     oidl := l.ids.flatten }
 
+/-! ### the chunk file git writes (`chunk-format.c`: `write_chunkfile`) -/
+
+/-- table-of-contents entries: 4-byte id + 8-byte big-endian offset each -/
+def tocBytes (es : List (Bytes × Nat)) : Bytes := es.flatMap (fun e => e.1 ++ C09.be64 e.2)
+
+/-- chunk ids with their start offsets when the payloads are laid out back to back from `pos`,
+terminated by the zero id with the end offset -/
+def layout : List (Bytes × Bytes) → Nat → List (Bytes × Nat)
+  | [], pos => [([0, 0, 0, 0], pos)]
+  | (k, p) :: rest, pos => (k, pos) :: layout rest (pos + p.length)
+
+/-- header, table of contents, payloads, trailing checksum -/
+def sWriteChunks (hdr : Bytes) (cs : List (Bytes × Bytes)) (trailer : Bytes) : Bytes :=
+  hdr ++ (tocBytes (layout cs (8 + 12 * (cs.length + 1))) ++ ((cs.map (·.2)).flatten ++ trailer))
+
+/-- a chunk that is only written when there is something to put in it -/
+def optChunk (kind : Bytes) : Option Bytes → List (Bytes × Bytes)
+  | some payload => [(kind, payload)]
+  | none => []
+
+/-- the hashes of the base graphs, if any -/
+def basePayload (bases : List Bytes) : Option Bytes := if bases.isEmpty then none else some bases.flatten
+
+/-- the chunks of a layer: OIDF, OIDL, CDAT, then EDGE if there are extra edges, then BASE if the
+layer has base graphs -/
+def sGraphChunks (l : SLayer) (bases : List Bytes) : List (Bytes × Bytes) :=
+  let f := sFile l bases.length
+  [(OIDF, f.fan.flatMap be32), (OIDL, f.oidl), (CDAT, f.cdat)]
+    ++ optChunk EDGE f.edges ++ optChunk BASE (basePayload bases)
+
+/-- the whole commit-graph file of a layer (`trailer` = the checksum, not modelled) -/
+def sWriteGraph (l : SLayer) (bases : List Bytes) (trailer : Bytes) : Bytes :=
+  sWriteChunks [67, 71, 80, 72, 1, 1, UInt8.ofNat (sGraphChunks l bases).length, UInt8.ofNat bases.length]
+    (sGraphChunks l bases) trailer
+
 end GixModel.C14
